@@ -22,7 +22,7 @@ LEAN_MODULES = ["LunaVerif.Props.C25", "LunaVerif.Lemmas.C25Tx12", "LunaVerif.Le
                 "LunaVerif.Lemmas.C25RxFront", "LunaVerif.Lemmas.C25RxBack", "LunaVerif.Props.C25Rx",
                 "LunaVerif.Lemmas.C25RxFifo", "LunaVerif.Lemmas.C25RxFifoStream", "LunaVerif.Lemmas.C25RxFifoSpaced",
                 "LunaVerif.Lemmas.C25RxCdc", "LunaVerif.Lemmas.C25RxCdcStreams", "LunaVerif.Lemmas.C25RxCdcPacket",
-                "LunaVerif.Props.C25RxUsb"]
+                "LunaVerif.Props.C25RxUsb", "LunaVerif.Lemmas.C25RxErrSeen", "LunaVerif.Props.C25RxUsbErr"]
 DRIVER = "Driver/C25.lean"
 REQUIRED_THEOREMS = ["decode_encode", "no_seven_ones_on_wire", "stuff_error_detected", "never_drives_in_nondriving",
                      "pulls_follow_requests",
@@ -34,7 +34,8 @@ REQUIRED_THEOREMS = ["decode_encode", "no_seven_ones_on_wire", "stuff_error_dete
                      "back_blocks", "unstuff_run", "shifter_bytes", "lock", "reset_idle", "idle_holds_error",
                      # the clock-domain crossing (Model/Phy/FsRxCdc.lean)
                      "fifo_isolated_write", "fifo_idle", "fifo_block_write", "fifo_stream", "cdc_split", "evN_bits",
-                     "evS_bits", "packet_streams", "combine", "rx_delivers_to_usb"]
+                     "evS_bits", "packet_streams", "combine", "rx_delivers_to_usb", "pays_spaced_any",
+                     "stuff_error_seen_by_usb"]
 RULE = ("tx: packets of 1..70 random / all-ones / stuffing-boundary bytes, tx_data garbage between packets, random "
         "inter-packet gaps, the producer holds each byte until tx_ready; the D+/D- waveform is compared bit by bit "
         "with the Lean `encode` and with an independent Python encoder.  txc/txp: the cycle-level Lean model of the "
@@ -81,13 +82,13 @@ PARTIAL = ("Transmit direction fully in theorems over the cycle-level model that
            "its clock-domain crossing (both co-simulated against the real RxPipeline cycle by cycle), the nominal-rate "
            "waveform of `encode bytes`, in any sampling phase and any usb clock phase, is delivered to the 12 MHz side as "
            "exactly start, the bytes in order with strobe while in-progress, end, with no error while in progress "
-           "(rx_delivers_to_usb, rx_pipeline_decodes_encode), and seven consecutive 1s latch the error until the next "
-           "packet start (stuff_error_detected_cycle).  NOT in a theorem (co-simulation only): the 48 MHz clock/data "
-           "recovery when the transmitter's bit clock is off-nominal (+-0.25% drift, jitter: runtime timing) -- the receive "
-           "theorems assume exactly four samples per bit and both lines switching in the same sample; and that the latched "
-           "error of a bit-stuffing violation is seen by the 12 MHz side while rx_active is still high is proved only up to "
-           "the usb_io-domain latch (its visibility at a usb edge during in-progress is shown on an instance and by the "
-           "rx / rxd cases).")
+           "(rx_delivers_to_usb, rx_pipeline_decodes_encode), and seven consecutive 1s anywhere in a packet latch the "
+           "error until the next packet start and are seen as rx_error while rx_active is high "
+           "(stuff_error_detected_cycle, stuff_error_seen_by_usb).  NOT in a theorem (co-simulation only): the 48 MHz "
+           "clock/data recovery when the transmitter's bit clock is off-nominal (+-0.25% drift, jitter: runtime timing) or "
+           "the two lines switch in different samples -- the receive theorems assume exactly four clean samples per bit "
+           "(they cover every sampling phase); packets without any byte (SYNC directly followed by EOP) are outside "
+           "rx_delivers_to_usb (start and end flags would be in flight in the flags FIFO together).")
 
 SE0, J, K = 0, 1, 2
 
